@@ -4,7 +4,7 @@
    Nothing new is modelled here: this is a corollary of CodesTheorems.roundtrip and
    ZigZagProofs.inverse_l/to_nat_range. *)
 From Coq Require Import List NArith ZArith Lia.
-From DSI Require Import Base Prog Codes BitFacts CodesProofs Run CodesSummary CodesTheorems Small ZigZagProofs.
+From DSI Require Import Base Prog Codes BitFacts CodesProofs Run CodesSummary CodesTheorems Small ZigZagProofs CodeDefs VByteProofs.
 Open Scope N_scope.
 
 Definition nat_of_signed (y : Z) : N := Z.to_N (to_nat 64 y).
@@ -64,3 +64,18 @@ Example signed_domain :
   nat_of_signed (2 ^ 63 - 1) = 18446744073709551614 /\ nat_of_signed (- 2 ^ 63) = 18446744073709551615 /\
   nat_of_signed (-1) = 1 /\ nat_of_signed 0 = 0 /\ nat_of_signed 1 = 2.
 Proof. vm_compute. repeat split. Qed.
+
+(* byte-level VByte carries EVERY i64, i64::MIN included (no domain guard at all) *)
+Theorem signed_vbyte_bytes_roundtrip : forall y rest, (- 2 ^ 63 <= y < 2 ^ 63)%Z ->
+  (exists bs, vbyte_be_encode (nat_of_signed y) = Some bs /\
+     exists x, vbyte_read_be (bs ++ rest) = Ok (x, rest) /\ signed_of_nat x = y) /\
+  (exists bs, vbyte_le_encode (nat_of_signed y) = Some bs /\
+     exists x, vbyte_read_le (bs ++ rest) = Ok (x, rest) /\ signed_of_nat x = y).
+Proof.
+  intros y rest Hy. pose proof (nat_of_signed_lt y Hy) as Hlt. change (2 ^ 64) with W64 in Hlt.
+  destruct (VByteProofs.roundtrip_be _ rest Hlt) as (b1 & E1 & R1).
+  destruct (VByteProofs.roundtrip_le _ rest Hlt) as (b2 & E2 & R2).
+  split.
+  - exists b1. split; [exact E1|]. exists (nat_of_signed y). split; [exact R1 | apply signed_nat_inverse; exact Hy].
+  - exists b2. split; [exact E2|]. exists (nat_of_signed y). split; [exact R2 | apply signed_nat_inverse; exact Hy].
+Qed.
